@@ -123,6 +123,7 @@ func driveSys(cfg *hx.RunCfg) error {
 	for i, kind := range []string{v1.PluginHTTP2HTTP, v1.PluginHTTP2HTTPS} {
 		rt := genRoute(g, 0)
 		rt.domain, rt.location, rt.id = fmt.Sprintf("s%d.c02.test", 4+i), "", 0
+		rt.respHeaders["x-chain-resp"] = "frps" // response-side rewrites on a proxy whose local side is a plugin
 		po := pluginOpts{localAddr: plain0, headers: genHeaderMap(g, cfgReqKeys, false), rewriteHost: g.Pick([]string{"", "plug.local"})}
 		coqP := "HrH2H"
 		var opts v1.ClientPluginOptions = &v1.HTTP2HTTPPluginOptions{Type: kind, LocalAddr: po.localAddr, HostHeaderRewrite: po.rewriteHost, RequestHeaders: v1.HeaderOperations{Set: po.headers}}
